@@ -278,7 +278,7 @@ func (g *gen) choose() (op, bool) {
 	case w < 88:
 		return op{k: "closesock"}, !g.closed
 	default:
-		return op{k: "pass", a: []int{15, 45, 90, 200, 330}[r.Intn(5)]}, g.passes < 5
+		return op{k: "pass", a: []int{15, 45, 60, 75, 90, 130, 200, 330}[r.Intn(8)]}, g.passes < 6
 	}
 }
 
@@ -465,6 +465,12 @@ var scripts = [][]op{
 	// asynchronous dial: back-off grows to the cap, resets after attach, stops at close
 	{{k: "newdialer", a: 1, b: 30, c: 120}, {k: "dial", a: 1}, {k: "resolve", a: 1, b: 0}, {k: "pass", a: 15}, {k: "pass", a: 90}, {k: "resolve", a: 1, b: 0},
 		{k: "pass", a: 200}, {k: "resolve", a: 1, b: 1}, {k: "pipefail", a: 1}, {k: "pass", a: 90}, {k: "closedialer", a: 1}, {k: "resolve", a: 1, b: 0}, {k: "pass", a: 330}},
+	// the delay grows by at most 1.5x per failure (not straight to the maximum) and is capped
+	{{k: "newdialer", a: 1, b: 30, c: 120}, {k: "dial", a: 1}, {k: "resolve", a: 1, b: 0}, {k: "pass", a: 60}, {k: "resolve", a: 1, b: 0}, {k: "pass", a: 75},
+		{k: "resolve", a: 1, b: 0}, {k: "pass", a: 100}, {k: "resolve", a: 1, b: 0}, {k: "pass", a: 135}, {k: "resolve", a: 1, b: 0}, {k: "pass", a: 60}, {k: "pass", a: 150}},
+	// no maximum: the delay stays at the reconnect time
+	{{k: "newdialer", a: 1, b: 50, c: 0}, {k: "dial", a: 1}, {k: "resolve", a: 1, b: 0}, {k: "pass", a: 80}, {k: "resolve", a: 1, b: 0}, {k: "pass", a: 80},
+		{k: "resolve", a: 1, b: 0}, {k: "pass", a: 25}, {k: "pass", a: 60}},
 	// listen failure then retry
 	{{k: "listen", a: 1}, {k: "listenagain", a: 1}, {k: "connect", a: 1}, {k: "listenagain", a: 1}, {k: "closelistener", a: 1}, {k: "listenagain", a: 1}},
 	// refused by the protocol on the dialer side: redial after the delay
